@@ -422,10 +422,11 @@ macro_rules! idm {
 pub fn jump_once() -> bool {
     crate::log::once_per_run()
 }
-/// The macro evaluation completed in iteration `lp` of the caller's loop: after one taken `continue` that must be 1.
-pub fn loop_iteration(lp: u8) {
-    if lp != 1 {
-        panic!("an operand's `continue` did not reach the caller's loop: the macro completed in iteration {} instead of 1", lp);
+/// The macro evaluation completed in iteration `lp` of the caller's loop: after one taken `continue` that must be 1 (0 if
+/// the program has no operand that jumps).
+pub fn loop_iteration(lp: u8, expected: u8) {
+    if lp != expected {
+        panic!("an operand's `continue` did not reach the caller's loop: the macro completed in iteration {} instead of {}", lp, expected);
     }
 }
 /// Always true; keeps `if yes() { .. } else { .. }` operands from being folded away syntactically.
